@@ -527,6 +527,19 @@ func evalP7v(args []string) string {
 		}
 	}
 	if p7.Verify() == nil {
+		// the verdict belongs to the content the object holds NOW: other content in the same object must be
+		// refused, the signed content accepted again (detached signatures are checked by setting Content)
+		if len(p7.Content) > 0 || attrs {
+			good := p7.Content
+			p7.Content = append(append([]byte{}, good...), 0x7e)
+			if p7.Verify() == nil {
+				return "ORACLE-FAIL:verifies-for-other-content-after-a-successful-verify"
+			}
+			p7.Content = good
+			if p7.Verify() != nil {
+				return "ORACLE-FAIL:second-verify-of-the-signed-content-fails"
+			}
+		}
 		return "accept"
 	}
 	return "reject"
